@@ -97,11 +97,12 @@ impl Prop for C13 {
         tier.pick(16, 240)
     }
     fn mandatory(&self, tier: Tier) -> Vec<String> {
-        let mut v: Vec<String> = ["sector:512", "sector:4096", "chain:Sequential", "chain:Reversed", "chain:Random", "mini:Reversed", "mini:Random", "meta:Front", "meta:Back", "meta:Scattered", "free_sectors", "dir_shuffled", "dir_holes", "overallocated_chains", "mini_stream", "no_mini_stream", "xls_workbook_via_layout", "size:0", "size:4095", "size:4096", "size:4097"]
+        let mut v: Vec<String> = ["sector:512", "sector:4096", "chain:Sequential", "chain:Reversed", "chain:Random", "mini:Reversed", "mini:Random", "meta:Front", "meta:Back", "meta:Scattered", "free_sectors", "dir_shuffled", "dir_holes", "overallocated_chains", "v3_size_high_dword_garbage", "mini_stream", "no_mini_stream", "xls_workbook_via_layout", "xls_with_vba_via_layout", "size:0", "size:4095", "size:4096", "size:4097"]
             .iter().map(|s| s.to_string()).collect();
         let _ = tier;
         v.push("difat_sectors".into());
         v.push("difat_chain>1".into());
+        v.push("fat_237_sectors".into());
         v
     }
     fn run_unit(&self, ctx: &Ctx, unit: u64, out: &mut UnitResult) {
@@ -141,16 +142,69 @@ impl Prop for C13 {
         }
         // workbooks through layouts
         for i in 0..ctx.tier.pick(6, 20) {
-            let book = gen::gen_book(&mut rng, &gen::XLS_LIMITS, &gen::GenOpts { empty_strings: false, max_sheets: 2, max_cells: 60, formulas: false, styles: true });
+            let mut book = gen::gen_book(&mut rng, &gen::XLS_LIMITS, &gen::GenOpts { empty_strings: false, max_sheets: 2, max_cells: 60, formulas: false, styles: true });
+            if i % 2 == 1 {
+                // enough cells for the Workbook stream to live in regular sectors (>= 4096 bytes)
+                let sh = &mut book.sheets[0];
+                let r0 = sh.cells.keys().map(|p| p.0).max().unwrap_or(0).min(60_000) + 1;
+                for r in 0..60u32 {
+                    for c in 0..8u32 {
+                        sh.cells.insert((r0 + r, c), crate::model::MCell::v(crate::model::Val::Num((r * 8 + c) as f64 + 0.125)));
+                    }
+                }
+            }
             let bc = BiffChoices::default();
             for k in 0..4 {
                 let cc = if k == 0 { CfbChoices::default() } else { CfbChoices::random(&mut rng) };
-                let more = if rng.bool() { vec![Entry::stream("\u{5}SummaryInformation", stream_bytes(&mut rng, 300, 3))] } else { vec![] };
+                let mut cc = cc;
+                let mut more = if rng.bool() { vec![Entry::stream("\u{5}SummaryInformation", stream_bytes(&mut rng, 300, 3))] } else { vec![] };
+                // every other workbook carries a VBA project whose module stream lives in regular
+                // sectors (>= 4096 bytes): the reader fetches it before the Workbook stream
+                let module_src: Option<Vec<u8>> = (i % 2 == 1).then(|| (0..6000).map(|j| b'a' + ((j * 7 + i as usize) % 23) as u8).collect());
+                if let Some(src) = &module_src {
+                    use crate::enc::ovba::{self, Module, Project, Stats, Strategy};
+                    let p = Project { codepage: 1252, modules: vec![Module { name: "Module1".into(), source: src.clone(), text_offset: 0, document: false, read_only: false, private: false }], references: vec![], compat_version: false };
+                    more.extend(ovba::project_entries(&p, Strategy::Literal, Some("_VBA_PROJECT_CUR"), &mut rng, &mut Stats::default()));
+                    if k == 1 {
+                        // metadata first, then the module, then the workbook
+                        cc.meta_place = crate::enc::cfb::Place::Front;
+                        cc.chain_order = crate::enc::cfb::Order::Reversed;
+                    }
+                    out.feat("xls_with_vba_via_layout");
+                }
                 let (bytes, enc) = crate::enc::xls_file(&book, &bc, &BiffExtra::default(), &cc, &more, &mut rng);
                 out.feat("xls_workbook_via_layout");
                 let cj = json!({"unit": unit, "workbook": i, "layout": format!("{:?}", cc)});
                 super::c02::check_xls(&book, &bytes, &enc.cell_feats, "c13|xls", out, &cj);
+                if let Some(src) = &module_src {
+                    use calamine::Reader;
+                    let got = guard(|| {
+                        let mut wb = calamine::Xls::new(std::io::Cursor::new(bytes.clone())).ok()?;
+                        let v = wb.vba_project()?.ok()?;
+                        v.get_module_raw("Module1").ok().map(|b| b.to_vec())
+                    });
+                    match got {
+                        Ok(Some(b)) if &b == src => {}
+                        Ok(other) => out.fail("c13|xls|vba_module".to_string(), json!({"ctx": cj, "got_len": other.map(|b| b.len()), "input_hex": hex(&bytes)})),
+                        Err(f) => out.fail(format!("c13|xls|vba|fault:{}", f.class), json!({"ctx": cj, "input_hex": hex(&bytes)})),
+                    }
+                }
                 out.case(Some(hash_bytes(&bytes[..512.min(bytes.len())]) ^ k));
+            }
+        }
+        // a FAT of exactly 109 + 128 sectors (the second DIFAT sector holds one entry)
+        if unit == 0 {
+            let mut len = 15_400_000usize;
+            for _ in 0..6 {
+                let entries = vec![Entry::stream("Workbook", stream_bytes(&mut rng, len, 1)), Entry::stream("Small", stream_bytes(&mut rng, 100, 2))];
+                let ch = CfbChoices::default();
+                let n_fat = cfb::build(&entries, &ch, &mut rng).n_fat_sectors;
+                if n_fat == 237 {
+                    out.feat("fat_237_sectors");
+                    check_container(&entries, &ch, &mut rng, out, &json!({"unit": unit, "difat_case": "fat=237", "layout": format!("{:?}", ch)}));
+                    break;
+                }
+                len = (len as i64 + (237 - n_fat as i64) * 128 * 512 - 20_000).max(4096) as usize;
             }
         }
         // DIFAT: > 109 FAT sectors (v3: > 7 MB); a chain of several DIFAT sectors needs > 15 MB
